@@ -19,7 +19,7 @@ ASSUMPTIONS = ["Python's sorted() is stable; rankdata(method='min') = 1 + number
 WALT = {"greater": "WGreater", "two-sided": "WTwoSided"}
 
 
-def cases(tier, rng, dist):
+def _cases(tier, rng, dist):
     vals = (-1, 0, 1)
     for reps in (1, 2):
         for m in (1, 2):
@@ -79,7 +79,7 @@ def textbook_big(t, method, two_sided):
     return adj, [Fraction(int(v), n) for v in raw]
 
 
-def drive(table, method, alts, in_place, pynum):
+def drive(table, method, alts, in_place, pynum, mta=None):
     t = table
     state = {"k": 0}
     def rand(data):
@@ -94,6 +94,19 @@ def drive(table, method, alts, in_place, pynum):
     R = NPC.Experiment.Randomizer(randomize=rand)
     data = NPC.Experiment(group=[0, 0, 0], response=[[1], [2], [3]], randomizer=R)
     tests = [mk(j) for j in range(len(t[0]))]
+    if mta is not None:
+        # the test array built by the library's own Experiment.make_test_array(func, indices) with an index list that is NOT
+        # 0..m-1 in order (a relabelled order, or a subset of the columns of a wider table): hypothesis j of the call is
+        # func(data, indices[j]); the wider table u holds column j of [table] at position indices[j]
+        m = len(t[0]); width = max(mta) + 1
+        u = [[-99.0] * width for _ in t]
+        for k in range(len(t)):
+            for j in range(m):
+                u[k][mta[j]] = t[k][j]
+        def f(data, idx):
+            v = float(u[int(data.group[0])][idx])
+            return v if pynum else np.float64(v)
+        tests = NPC.Experiment.make_test_array(f, list(mta))
     r = guarded(lambda: NPC.westfall_young(data, tests, method=method, alternatives=alts, in_place=in_place, reps=len(t) - 1))
     if r[0] != "ok":
         return list(r), None
@@ -109,8 +122,12 @@ def run(c):
     alts = c["alts"] if not isinstance(c["alts"], list) else list(c["alts"])
     if isinstance(c["alts"], list) and False:
         pass
-    r, grp = drive(c["table"], c["method"], tuple(alts) if isinstance(c["alts"], tuple) else alts, c["in_place"], c["pynum"])
-    out = {"r": r, "group_after": grp}
+    mta = None
+    if c.get("mta") is not None:
+        m_ = len(c["table"][0]); rs_ = np.random.RandomState(c["mta"])
+        mta = [int(i) for i in rs_.permutation(m_ + (2 if c["mta"] % 2 else 0))[:m_]]
+    r, grp = drive(c["table"], c["method"], tuple(alts) if isinstance(c["alts"], tuple) else alts, c["in_place"], c["pynum"], mta=mta)
+    out = {"r": r, "group_after": grp, "mta": mta}
     m = len(c["table"][0])
     if r[0] == "ok" and m > 1 and "perm_seed" in c:
         perm = [int(i) for i in np.random.RandomState(c["perm_seed"]).permutation(m)]
@@ -246,3 +263,10 @@ def generated(tier):
     """source-derived obligations (G4 formulas): regenerated from /repo's current source text on every run"""
     from ..translate.tables import obligations
     return obligations("C10")
+
+
+def cases(tier, rng, dist):
+    for i, c in enumerate(_cases(tier, rng, dist)):
+        if isinstance(c, dict) and not c.get("big") and "table" in c and i % 3 == 1:
+            c["mta"] = 1000 + i
+        yield c
